@@ -283,7 +283,9 @@ def shifted_copies(seed, i, ncopies):
     v /= np.linalg.norm(v)
     residues = []
     for c in range(ncopies):
-        auth = ResidueAuth("ABCD"[c], 7, None, base.name)
+        # chains in DEscending order on odd cases: the file order of two clashing residues is then the reverse
+        # of their sorted order
+        auth = ResidueAuth(("DCBA" if i % 2 else "ABCD")[c], 7, None, base.name)
         d = v * c * rng.uniform(0.9, 1.4)
         atoms = tuple(tertiary.Atom(None, None, auth, 1, a.name, a.x + d[0], a.y + d[1], a.z + d[2], 1.0) for a in base.atoms)
         residues.append(tertiary.Residue3D(None, auth, 1, base.one_letter_name, atoms))
